@@ -73,6 +73,7 @@ Definition vfp_eqb (a b : vfp) : bool :=
   (f_rx_qbytes a =? f_rx_qbytes b) &&
   Bool.eqb (f_rx_disp_waker a) (f_rx_disp_waker b) && Bool.eqb (f_rx_reader_waker a) (f_rx_reader_waker b) &&
   Bool.eqb (f_rx_reader_dropped a) (f_rx_reader_dropped b) && Bool.eqb (f_rx_closed a) (f_rx_closed b) &&
+  (f_rx_last_remaining a =? f_rx_last_remaining b) &&
   (f_tx_len a =? f_tx_len b) && (f_tx_cap a =? f_tx_cap b) &&
   Bool.eqb (f_tx_closed a) (f_tx_closed b) && Bool.eqb (f_tx_writer_dropped a) (f_tx_writer_dropped b) &&
   Bool.eqb (f_tx_writer_shutdown a) (f_tx_writer_shutdown b) &&
@@ -180,6 +181,7 @@ Definition shift_fp (da db : Z) (f : vfp) : vfp :=
      f_rx_qbytes := f_rx_qbytes f;
      f_rx_disp_waker := f_rx_disp_waker f; f_rx_reader_waker := f_rx_reader_waker f;
      f_rx_reader_dropped := f_rx_reader_dropped f; f_rx_closed := f_rx_closed f;
+     f_rx_last_remaining := f_rx_last_remaining f;
      f_tx_len := f_tx_len f; f_tx_cap := f_tx_cap f;
      f_tx_closed := f_tx_closed f; f_tx_writer_dropped := f_tx_writer_dropped f;
      f_tx_writer_shutdown := f_tx_writer_shutdown f;
